@@ -105,6 +105,36 @@ def _find_assign(tree, name):
     return hits[0].value
 
 
+def _stmts_in_order(body):
+    for st in body:
+        yield st
+        for fld in ("body", "orelse"):
+            sub = getattr(st, fld, None)
+            if isinstance(sub, list) and not isinstance(st, (ast.FunctionDef, ast.ClassDef)):
+                yield from _stmts_in_order(sub)
+
+
+def _straight_line(tree, env):
+    """evaluate every `name = <scalar expression>` of the function body in source order
+    (whatever the names are); statements that are not scalar arithmetic are skipped"""
+    fdef = tree.body[0]
+    for st in _stmts_in_order(fdef.body):
+        if isinstance(st, ast.Assign) and len(st.targets) == 1 and isinstance(st.targets[0], ast.Name):
+            try:
+                env[st.targets[0].id] = py_expr(st.value, env)
+            except OutOfDate:
+                pass
+
+
+def _locals(tree):
+    """name -> value AST of every simple assignment (array-valued intermediates of the layout kernels)"""
+    out = {}
+    for st in _stmts_in_order(tree.body[0].body):
+        if isinstance(st, ast.Assign) and len(st.targets) == 1 and isinstance(st.targets[0], ast.Name):
+            out[st.targets[0].id] = st.value
+    return out
+
+
 def _attr_chain(node):
     parts = []
     while isinstance(node, ast.Attribute):
@@ -120,9 +150,10 @@ def _attr_chain(node):
 # ---------------------------------------------------------------------------
 
 
-def wavenumber_element(expr, env, j, dtype, full_axis):
+def wavenumber_element(expr, env, j, dtype, full_axis, local=None):
     """SMT term (FloatingPoint of `dtype`) for element j of the 1-D wavenumber
     array built by `expr` (AST), plus the documented integer (as signed BV)."""
+    local = local or {}
     N = env["num_points"].s
     half = f"(bvudiv {N} {bv(2)})"
     if full_axis:
@@ -157,7 +188,24 @@ def wavenumber_element(expr, env, j, dtype, full_axis):
             if f is None:
                 raise OutOfDate("layout op")
             return f"({f} {int_elem(node.left)} {int_elem(node.right)})"
+        if isinstance(node, ast.UnaryOp) and isinstance(node.op, ast.USub):
+            return f"(bvneg {int_elem(node.operand)})"
+        if isinstance(node, ast.Call) and _attr_chain(node.func) in ("jnp.where", "jnp.select"):
+            c, a, b = node.args
+            return f"(ite {int_cond(c)} {int_elem(a)} {int_elem(b)})"
+        if isinstance(node, ast.Name) and node.id in local:
+            return int_elem(local[node.id])
         return py_expr(node, env).s
+
+    def int_cond(node):
+        if isinstance(node, ast.Compare) and len(node.ops) == 1:
+            f = {ast.Lt: "bvslt", ast.LtE: "bvsle", ast.Gt: "bvsgt", ast.GtE: "bvsge", ast.Eq: "=", ast.NotEq: "distinct"}.get(type(node.ops[0]))
+            if f is None:
+                raise OutOfDate("layout comparison")
+            return f"({f} {int_elem(node.left)} {int_elem(node.comparators[0])})"
+        if isinstance(node, ast.BinOp) and isinstance(node.op, (ast.BitAnd, ast.BitOr)):
+            return f"({'and' if isinstance(node.op, ast.BitAnd) else 'or'} {int_cond(node.left)} {int_cond(node.right)})"
+        raise OutOfDate("layout condition")
 
     return f"({TOFP[dtype]} RNE {int_elem(expr)})", doc
 
@@ -174,7 +222,7 @@ def wavenumber_queries(ex):
     for var, full in (("right_most_wavenumbers", False), ("other_wavenumbers", True)):
         expr = _find_assign(tree, var)
         for dtype in ("f32", "f64"):
-            w, doc = wavenumber_element(expr, env, "j", dtype, full)
+            w, doc = wavenumber_element(expr, env, "j", dtype, full, _locals(tree))
             rng = f"(assert (bvult j N))\n" if full else f"(assert (bvule j (bvudiv N {bv(2)})))\n"
             txt = header(rng) + f"(assert (not (fp.eq {w} ({TOFP[dtype]} RNE {doc}))))\n(check-sat)\n(get-value (N j))\n"
             out.append((f"wavenumber-exact/{'fftfreq' if full else 'rfftfreq'}/{dtype}", txt, {"dtype": dtype, "full": full, "src": ast.unparse(expr)}))
@@ -190,8 +238,7 @@ def cutoff_queries(ex, fraction_value, num, den, power):
     """float decision |k| <= cutoff  <=>  den*(k+1) <= num*(N//2); and (power+1)*k < N on the retained band"""
     tree = _src_ast(ex.nonlin_fun.BaseNonlinearFun.__init__)
     env = {"num_points": V("int", "N"), "dealiasing_fraction": V("f64", _f64_bits(fraction_value))}
-    for name in ("nyquist_mode", "highest_resolved_mode", "start_of_aliased_modes"):
-        env[name] = py_expr(_find_assign(tree, name), env)
+    _straight_line(tree, env)
     calls = [n for n in ast.walk(tree) if isinstance(n, ast.Call) and _attr_chain(n.func).endswith("low_pass_filter_mask")]
     if len(calls) != 1:
         raise OutOfDate("low_pass_filter_mask call")
@@ -210,7 +257,7 @@ def cutoff_queries(ex, fraction_value, num, den, power):
     wexpr = _find_assign(wtree, "right_most_wavenumbers")
     out = []
     for dtype in ("f32", "f64"):
-        w, doc = wavenumber_element(wexpr, env, "j", dtype, False)
+        w, doc = wavenumber_element(wexpr, env, "j", dtype, False, _locals(wtree))
         c_t = _tof64(cutoff) if dtype == "f64" else f"({TOFP['f32']} RNE {_tof64(cutoff)})"
         dec = f"(fp.leq (fp.abs {w}) {c_t})"
         half = f"(bvudiv N {bv(2)})"
